@@ -131,7 +131,18 @@ def k_downsample(ctx, seqs, maxseqs, container, np_seed):
     if maxseqs is None or len(seqs) <= maxseqs:
         ctx.count("downsample_identity")
         if out.value is not x:
-            ctx.violation(f"downsample:{container}:not-identity", "input with at most maxseqs elements was not returned unchanged", type(out.value).__name__, "the input object")
+            # a copy is acceptable, as long as it holds the same elements / rows in the same order
+            r = out.value
+            try:
+                if container in ("table", "table_dupindex"):
+                    same = list(r.index) == list(x.index) and list(r.columns) == list(x.columns) and r.values.tolist() == x.values.tolist()
+                else:
+                    same = [str(v) for v in list(r)] == [str(v) for v in list(x)]
+            except Exception:
+                same = False
+            if not same:
+                ctx.violation(f"downsample:{container}:not-identity", "input with at most maxseqs elements was not returned unchanged (content or order differs)",
+                              type(out.value).__name__, "the input, unchanged")
         return
     ctx.count("downsample_subsampled")
     r = out.value
